@@ -74,6 +74,14 @@ CorridorAxisAccept(rm, rs, axis, n, fitH, fitV, zeroRadius) ==
   /\ (zeroRadius => M = LL /\ S = LL)
   /\ \A p \in S : InAxisBox(p, axis, n, fitH, fitV)
 
+\* Very long axis-parallel segments (up to a few hundred thousand voxels) are recorded by counts: entries, distinct
+\* entries, smallest and largest coordinate along the axis, entries off the axis.  The run is complete exactly when
+\* all entries are distinct, on the axis, between the end voxels, and as many as the run has voxels.
+LineAxisCountAccept(c, n) ==
+  /\ c.entries = c.distinct /\ c.offaxis = 0
+  /\ c.lo = MinOf(0, n) /\ c.hi = MaxOf(0, n)
+  /\ c.distinct = MaxOf(0, n) - MinOf(0, n) + 1
+
 \* Long segments in general position (thousands of voxels).  The walk abstraction is too costly there, so
 \* the harness measures, per returned voxel, whether the segment meets the voxel's box (in longitude,
 \* latitude, altitude, box widened by 0.2 %): `off` lists the voxels it does not meet.  It hands the result
